@@ -398,6 +398,9 @@ pub struct Entry {
 }
 
 pub struct Interp {
+    /// known findings that are listed in /verif/known_findings.json (excused, counted)
+    pub excuse_kf_c04_1: bool,
+    pub excuse_kf_c04_2: bool,
     pub zeros: bool,
     pub price: u64,
     pub profile: Profile,
@@ -447,6 +450,8 @@ fn listing_of(level: &PriceLevel) -> Vec<Order> {
 impl Interp {
     pub fn new(h: &History) -> Self {
         Interp {
+            excuse_kf_c04_1: true,
+            excuse_kf_c04_2: true,
             zeros: h.zeros,
             price: h.price,
             profile: h.profile,
@@ -1059,9 +1064,9 @@ impl Interp {
                     continue;
                 }
                 if x.rank < m_rank {
-                    if x.requeued {
+                    if x.requeued && self.excuse_kf_c04_1 {
                         self.facts.kf_c04_1 += 1;
-                    } else if m_stale {
+                    } else if m_stale && self.excuse_kf_c04_2 {
                         self.facts.kf_c04_2 += 1;
                     } else {
                         let msg = format!(
@@ -1519,7 +1524,13 @@ impl Interp {
 
 /// Run a whole history; returns the interpreter (violations, facts) and the result trace.
 pub fn run_history(h: &History, skip_reads: bool, keep_trace: bool) -> (Interp, Vec<OpResult>) {
+    run_history_with(h, skip_reads, keep_trace, (true, true))
+}
+
+pub fn run_history_with(h: &History, skip_reads: bool, keep_trace: bool, excuse: (bool, bool)) -> (Interp, Vec<OpResult>) {
     let mut it = Interp::new(h);
+    it.excuse_kf_c04_1 = excuse.0;
+    it.excuse_kf_c04_2 = excuse.1;
     it.skip_reads = skip_reads;
     it.keep_trace = keep_trace;
     let mut results = Vec::with_capacity(h.ops.len());
